@@ -7,7 +7,7 @@
    real builders and [slice] to Array::slice / ArrayData::slice on every generated layout. *)
 From Coq Require Import List Arith NArith ZArith Bool.
 From AV Require Import Base.Bytes Model.C09_Layout Model.C02_Logical Model.C02_Equal Model.C02_Rows.
-From AV Require Import Proofs.C02_Slice Proofs.C02_Readback Proofs.C02_EqualNulls Proofs.C02_EqualPrim Proofs.C02_EqualBool Proofs.C02_EqualBin Proofs.C02_EqualList Proofs.C02_Rows.
+From AV Require Import Proofs.C02_Slice Proofs.C02_Readback Proofs.C02_EqualNulls Proofs.C02_EqualPrim Proofs.C02_EqualBool Proofs.C02_EqualBin Proofs.C02_EqualList Proofs.C02_EqualListPrim Proofs.C02_Rows.
 Import ListNotations.
 
 (* ---- slicing is a window on the logical content: EVERY modelled type (Null, Boolean, fixed width,
@@ -119,6 +119,16 @@ Theorem list_equal_range : forall (large nullable : bool) (c : dty) (alen aoff :
    <-> forall i, i < n -> slot_valid a (ls + i) = true -> lslice large a ka (ls + i) = lslice large b kb (rs + i)).
 Proof. exact list_equal_iff. Qed.
 Print Assumptions list_equal_range.
+
+(* instance: (Large)List of a fixed-width child — `==` exactly when type and logical column coincide
+   (non-zero first offsets, unreferenced child slots, nulls at both levels with arbitrary payload) *)
+Theorem equal_iff_logical_list_of_primitive : forall large nullable w a b,
+  p_ty a = TList large nullable (TFixed w) -> spec_node a = true -> spec_node b = true ->
+  (forall k, In k (p_kids a) -> spec_node k = true /\ wf_bytes (buf k 0)) ->
+  (forall k, In k (p_kids b) -> spec_node k = true /\ wf_bytes (buf k 0)) ->
+  (equal a b = true <-> p_ty a = p_ty b /\ logical a = logical b).
+Proof. exact equal_iff_logical_list_prim. Qed.
+Print Assumptions equal_iff_logical_list_of_primitive.
 
 (* equal_nulls / contains_nulls through the BitSliceIterator specification *)
 Theorem equal_nulls_spec : forall a b ls rs n,
